@@ -959,6 +959,339 @@ def user_wrap_cases(ctx, tables):
     return cases
 
 
+# ---------------------------------------------------------------- global-config LAYERS x call SEQUENCES
+# emmet.expand(abbr, config, global_config): the caller's data comes in layers -- global_config[<type>] (all markup
+# syntaxes), global_config[<syntax>] (one syntax), the user config of the call; each may carry `snippets`, `variables`,
+# `options`; later layers win (README "global config" / the docstring of the JS original's resolveConfig; written down here,
+# not read from emmet/config.py).  An editor plugin keeps ONE global_config object (its settings) and passes it to every
+# call, whatever the syntax of the document.  "Alias = definition in its place" is a statement about the configuration the
+# CALLER WROTE: the snippet table in effect for a call is  built-in < global[type] < global[syntax] < user config  of the
+# data as written, on every call of a sequence -- whatever was expanded before with the same objects.
+GLOBAL_LAYERS_AND_SEQUENCES = True      # generator class: several global-config layers at once x one global_config object over a sequence of calls
+# the markup syntaxes of the Emmet documentation (hard-coded; emmet/config.py SYNTAXES is not read)
+MARKUP_SYNTAXES = ['html', 'xml', 'xsl', 'jsx', 'pug', 'slim', 'haml', 'vue', 'svelte']
+SESSION_KEYS = ['g1', 'g2', 'g3', 'g4', 'g5']          # fresh names: snippets only where a caller layer in effect defines them
+# names that ARE built-in snippets of some syntax (xsl: choose tm inc call if var; all markup syntaxes: a bq btn fst) and plain
+# elements elsewhere: a caller layer for one syntax may redefine them, the other syntaxes must keep their own reading
+BUILTIN_NAMED_KEYS = ['choose', 'tm', 'inc', 'call', 'if', 'var', 'a', 'bq', 'btn', 'fst']
+CALL_STYLES = ['expand', 'config-object', 'expand-markup']      # expand(abbr, dict, G) / expand(abbr, Config(dict, G)) / expand_markup(abbr, Config(dict, G))
+LAYER_OPTIONS = [{'output.reverseAttributes': True}, {'output.reverseAttributes': False}, {'output.selfClosingStyle': 'xhtml'},
+                 {'output.attributeQuotes': 'single'}, {'output.tagCase': 'upper'}, {'output.compactBoolean': True},
+                 {'output.indent': '  '}]
+_SESSION_STATE = {}
+
+
+def layered(glob, user, syntax, key):
+    """The caller's data for `key` in effect for one call: global[type] < global[syntax] < user config."""
+    out = {}
+    for src in (glob.get('markup') or {}, glob.get(syntax) or {}, user):
+        out.update(src.get(key) or {})
+    return out
+
+
+def builtin_table(syntax):
+    """Built-in table of a syntax: the markup table; xsl and pug add their own (Emmet documentation)."""
+    from emmet.snippets import markup_snippets, xsl_snippets, pug_snippets
+    t = dict(markup_snippets)
+    if syntax == 'xsl':
+        t.update(xsl_snippets)
+    elif syntax == 'pug':
+        t.update(pug_snippets)
+    return t
+
+
+def defining_layer(glob, user, syntax, name):
+    if name in (user.get('snippets') or {}):
+        return 'user-config'
+    if name in ((glob.get(syntax) or {}).get('snippets') or {}):
+        return 'global-syntax'
+    if name in ((glob.get('markup') or {}).get('snippets') or {}):
+        return 'global-type'
+    return 'built-in' if name in builtin_table(syntax) else 'no-snippet'
+
+
+def without_tables(cfg):
+    return {k: v for k, v in cfg.items() if k != 'snippets'}
+
+
+def equivalent_user_config(glob, user, syntax):
+    """The same configuration written as ONE user config (for the extracted model, which takes a user config)."""
+    c = {k: copy.deepcopy(v) for k, v in user.items() if k not in ('snippets', 'variables', 'options')}
+    c['syntax'] = syntax
+    for key in ('snippets', 'variables', 'options'):
+        v = layered(glob, user, syntax, key)
+        if v:
+            c[key] = v
+    return c
+
+
+def rand_layer(rng, pool, tag, p_snip, later):
+    layer = {}
+    if rng.random() < p_snip:
+        tbl = {}
+        for k in rng.sample(pool, rng.randint(1, min(4, len(pool)))):
+            # acyclic whatever the layering: a definition mentions plain names and LATER fresh keys only
+            names = PLAIN + [g for g in later if k not in SESSION_KEYS or g > k] * 2
+            d = rand_definition(rng, names)
+            if rng.random() < 0.15:
+                d += '+p[title=${who}]{${who}}'
+            tbl[k] = d
+        layer['snippets'] = tbl
+    if rng.random() < 0.3:
+        layer['variables'] = {'who': 'w-' + tag}
+    if rng.random() < 0.25:
+        layer['options'] = dict(rng.choice(LAYER_OPTIONS))
+    return layer
+
+
+def rand_session(rng):
+    """{'global': the global config as the caller wrote it, 'user': the user config (without syntax), 'share_user': the user
+    config is ONE dict object too (the caller sets its syntax before each call), 'calls': [call]}"""
+    pool = rng.sample(SESSION_KEYS, rng.randint(2, 4)) + rng.sample(BUILTIN_NAMED_KEYS, rng.randint(1, 3))
+    later = sorted(k for k in pool if k in SESSION_KEYS)
+    glob = {}
+    if rng.random() < 0.85:
+        glob['markup'] = rand_layer(rng, pool, 'type', 0.9, later)
+    own = rng.sample(MARKUP_SYNTAXES, rng.randint(1, 3))
+    for syn in own:
+        glob[syn] = rand_layer(rng, pool, syn, 0.9, later)
+    if rng.random() < 0.25:          # layers of the OTHER abbreviation type: never in effect for a markup call
+        glob[rng.choice(['stylesheet', 'css', 'scss'])] = {'snippets': {k: rand_definition(rng, PLAIN) for k in rng.sample(pool, 2)}}
+    user = rand_layer(rng, pool, 'user', 0.4, later) if rng.random() < 0.6 else {}
+    calls = []
+    syntaxes = []
+    for i in range(rng.randint(3, 6)):
+        syn = rng.choice(own) if rng.random() < 0.55 else rng.choice(MARKUP_SYNTAXES)
+        if i == 1 and syn == syntaxes[0]:
+            syn = rng.choice([s for s in MARKUP_SYNTAXES if s != syn])          # the document syntax changes at least once
+        syntaxes.append(syn)
+        style = rng.choice(CALL_STYLES)
+        others = [k for k in BUILTIN_NAMED_KEYS if k not in pool]
+        for name in pool + rng.sample(others, 2) + [rng.choice(PLAIN)]:
+            forms = [f[0] for f in effective_forms(glob, user, syn, name)]
+            calls.append(derive_call(glob, user, i, syn, style, name, rng.choice(forms)))
+    return {'global': glob, 'user': user, 'share_user': rng.random() < 0.5, 'calls': calls}
+
+
+def effective_forms(glob, user, syntax, name):
+    """alias_pairs of a name under the table in effect for one call, by the layers as the caller wrote them."""
+    rev = bool(layered(glob, user, syntax, 'options').get('output.reverseAttributes'))
+    table = builtin_table(syntax)
+    table.update(layered(glob, user, syntax, 'snippets'))
+    d = table.get(name)
+    return [(kind, a, b, bool(d)) for kind, a, b in su.alias_pairs(name, d if d else name, rev)]
+
+
+def derive_call(glob, user, step, syntax, style, name, form):
+    """One call of a sequence: the alias form `a`, the definition-in-place form `b` (snippet: False = the name is a plain element
+    for this call, `b` unused).  None when the form cannot be written for the definition in effect."""
+    for kind, a, b, snip in effective_forms(glob, user, syntax, name):
+        if kind == form:
+            return {'step': step, 'syntax': syntax, 'style': style, 'name': name, 'form': kind, 'a': a, 'b': b, 'snippet': snip,
+                    'layer': defining_layer(glob, user, syntax, name)}
+    return None
+
+
+def session_runner(session):
+    """call(c, abbr) with the caller's objects of one session: ONE global_config object for every call (and ONE user config
+    dict when share_user), as written at the start."""
+    import emmet
+    glob = copy.deepcopy(session['global'])
+    user = copy.deepcopy(session['user'])
+
+    def call(c, abbr):
+        if session['share_user']:
+            uc = user
+            uc['syntax'] = c['syntax']
+        else:
+            uc = dict(copy.deepcopy(session['user']), syntax=c['syntax'])
+        if c['style'] == 'expand':
+            return emmet.expand(abbr, uc, glob)
+        config = emmet.Config(uc, glob)
+        return emmet.expand(abbr, config) if c['style'] == 'config-object' else emmet.expand_markup(abbr, config)
+    return call
+
+
+def fresh_call(session, c, abbr, tables=True):
+    """The same call with fresh objects holding what the caller wrote (tables=False: the caller's snippet tables left out)."""
+    import emmet
+    glob = copy.deepcopy(session['global'])
+    uc = dict(copy.deepcopy(session['user']), syntax=c['syntax'])
+    if not tables:
+        glob = {k: without_tables(v) for k, v in glob.items()}
+        uc = without_tables(uc)
+    if c['style'] == 'expand':
+        return emmet.expand(abbr, uc, glob)
+    config = emmet.Config(uc, glob)
+    return emmet.expand(abbr, config) if c['style'] == 'config-object' else emmet.expand_markup(abbr, config)
+
+
+def judge_session_call(session, c, call):
+    """One call of a session with the session's objects (call = session_runner(session), all earlier calls made).
+    Returns (why or None, result of the alias form, nesting depth)."""
+    ra, depth = expand_with_depth(c['a'], None, lambda abbr: call(c, abbr))
+    where = 'syntax %r, %s, name %r (%s)' % (c['syntax'], c['style'], c['name'], c['layer'])
+    if ra[0] == 'recursion':
+        return where + ': resolution does not terminate (RecursionError)', ra, depth
+    if ra[0] == 'too-deep':
+        return where + ': snippet nesting depth %d exceeds the number of distinct snippets of the configuration' % depth, ra, depth
+    if ra[0] == 'timeout':
+        return where + ': resolution did not finish within %d s (nesting depth reached %d)' % (TIME_LIMIT, depth), ra, depth
+    if ra[0] != 'ok':
+        return where + ': expand(alias form) raised %r' % (ra,), ra, depth
+    if c['snippet']:
+        rb = route_call(lambda abbr: fresh_call(session, c, abbr), c['b'])
+        if rb != ra:
+            return ('%s: with the caller\'s global_config object the alias form gives %r; its definition by the layers the caller wrote, in its '
+                    'place (%r), gives %r' % (where, ra[1][:300], c['b'], str(rb[1] if rb[0] == 'ok' else rb)[:300])), ra, depth
+    else:
+        rb = route_call(lambda abbr: fresh_call(session, c, abbr, tables=False), c['a'])
+        if rb != ra:
+            return ('%s: %r is no snippet of this syntax by the layers the caller wrote (a plain element: %r), but with the caller\'s '
+                    'global_config object it expands to %r' % (where, c['name'], str(rb[1] if rb[0] == 'ok' else rb)[:300], ra[1][:300])), ra, depth
+    return None, ra, depth
+
+
+def step_kind(calls, c):
+    """The syntax of this step of the sequence against the steps before it."""
+    before = []
+    for e in calls:
+        if e['step'] >= c['step']:
+            break
+        if not before or before[-1] != e['syntax']:
+            before.append(e['syntax'])
+    return 'first-step' if not before else 'same-as-previous-step' if before[-1] == c['syntax'] else \
+        'back-to-an-earlier-syntax' if c['syntax'] in before else 'new-syntax'
+
+
+def session_cases(ctx, n_sessions):
+    cases = []
+    if not GLOBAL_LAYERS_AND_SEQUENCES:
+        return cases
+    for _ in range(n_sessions):
+        s = rand_session(ctx.rng)
+        layers = [k for k in s['global'] if 'snippets' in s['global'][k]]
+        ctx.cover('C14:session:global-layers-with-snippets:%s' % ('type+syntax' if 'markup' in layers and len(layers) > 1 else
+                                                                  'type' if 'markup' in layers else 'syntax' if layers else 'none'))
+        ctx.cover('C14:session:user-config-object-%s' % ('shared' if s['share_user'] else 'fresh-per-call'))
+        ctx.cover('C14:session:distinct-syntaxes:%d' % len(set(c['syntax'] for c in s['calls'])))
+        ctx.sample({'session_global_config': s['global'], 'user_config': s['user'], 'user_config_object_shared': s['share_user'],
+                    'first_calls': [[c['style'], c['syntax'], c['a'], c['b'] if c['snippet'] else 'plain element', c['layer']] for c in s['calls'][:4]]}, limit=2)
+        for i, c in enumerate(s['calls']):
+            elsewhere = any(c['name'] in (v.get('snippets') or {}) for k, v in s['global'].items() if k not in ('markup', c['syntax']))
+            cases.append({'kind': 'session:%s:%s' % (c['layer'], c['form']), 'a': c['a'], 'b': c['b'], 'equal': c['snippet'], 'bound': None,
+                          'config': equivalent_user_config(s['global'], s['user'], c['syntax']), 'session': s, 'index': i,
+                          'to_model': i % 3 == 0,          # the oracle judges every call; one in three also goes through the extracted model
+                          'session_cover': ['call-style:' + c['style'], 'syntax:' + c['syntax'],
+                                            'defined-by:%s%s' % (c['layer'], '+another-syntax-layer' if elsewhere else ''),
+                                            'syntax-of-the-step:' + step_kind(s['calls'], c)]})
+    return cases
+
+
+def check_session_case(c):
+    s, i = c['session'], c['index']
+    ent = _SESSION_STATE.get('current')
+    if ent is None or ent[0] is not s or ent[1] != i:
+        # not the next call of the running session: start the sequence again and make the earlier calls
+        call = session_runner(s)
+        for e in s['calls'][:i]:
+            route_call(lambda abbr: call(e, abbr), e['a'])
+    else:
+        call = ent[2]
+    r = judge_session_call(s, s['calls'][i], call)
+    _SESSION_STATE['current'] = (s, i + 1, call)
+    return r
+
+
+def session_fails(s, calls):
+    """The calls in a fresh process state (fresh caller objects): does the LAST one fail?"""
+    call = session_runner(s)
+    for e in calls[:-1]:
+        route_call(lambda abbr: call(e, abbr), e['a'])
+    return judge_session_call(s, calls[-1], call)[0]
+
+
+_MINIMISED = [0]
+
+
+def session_replay(c, why):
+    """Replay object of a failing session call: the caller's data and the shortest call sequence found that still fails
+    (the failing call alone, one earlier call + the failing call, else everything up to it)."""
+    s, i = c['session'], c['index']
+    calls = s['calls'][:i + 1]
+    _MINIMISED[0] += 1
+    if _MINIMISED[0] <= 12:
+        last = calls[-1]
+        tried = set()
+        for cand in [[]] + [[e] for e in calls[:-1]]:
+            k = tuple((e['syntax'], e['style']) for e in cand)
+            if k in tried:
+                continue
+            tried.add(k)
+            if session_fails(s, cand + [last]):
+                calls = cand + [last]
+                break
+        s, calls = shrink_session(s, calls)
+    return {'component': 'C14-session', 'global': s['global'], 'user': s['user'], 'share_user': s['share_user'], 'calls': calls,
+            'abbreviation': c['a'], 'why': session_fails(s, calls) or why}
+
+
+def shrink_session(s, calls):
+    """Greedy: leave out layers, then parts of layers, then single snippets / variables / options of the caller's data while the
+    last call (re-derived for the smaller data) still fails."""
+    def attempts(glob, user):
+        for k in list(glob):
+            yield ('global', k, None, None)
+        for where, d in [('global', glob)] + [('user', {'': user})]:
+            for k in list(d):
+                for part in list(d[k]):
+                    yield (where, k, part, None)
+        for where, d in [('global', glob)] + [('user', {'': user})]:
+            for k in list(d):
+                for part in list(d[k]):
+                    for x in list(d[k][part]):
+                        yield (where, k, part, x)
+    changed = True
+    rounds = 0
+    while changed and rounds < 3:
+        changed = False
+        rounds += 1
+        for where, k, part, x in list(attempts(s['global'], s['user'])):
+            glob, user = copy.deepcopy(s['global']), copy.deepcopy(s['user'])
+            tgt = glob if where == 'global' else {'': user}
+            try:
+                if part is None:
+                    del tgt[k]
+                elif x is None:
+                    del tgt[k][part]
+                else:
+                    del tgt[k][part][x]
+            except KeyError:
+                continue
+            if where == 'user' and part is None:
+                continue
+            cs = [derive_call(glob, user, e['step'], e['syntax'], e['style'], e['name'], e['form']) for e in calls]
+            if any(e is None for e in cs):
+                continue
+            s2 = {'global': glob, 'user': user, 'share_user': s['share_user'], 'calls': cs}
+            if session_fails(s2, cs):
+                s, calls, changed = s2, cs, True
+    return s, calls
+
+
+def replay_session(rp):
+    s = {'global': rp['global'], 'user': rp['user'], 'share_user': rp['share_user'], 'calls': rp['calls']}
+    call = session_runner(s)
+    print('global_config (ONE object for all calls): %r\nuser config%s: %r' % (
+        rp['global'], ' (ONE object, syntax set before each call)' if rp['share_user'] else '', rp['user']))
+    bad = 0
+    for e in rp['calls']:
+        why, ra, depth = judge_session_call(s, e, call)
+        print('call %s %r syntax=%s -> %r\n  property oracle: %s' % (e['style'], e['a'], e['syntax'], ra, why or 'holds'))
+        bad += bool(why)
+    return 1 if bad else 0
+
+
 def corpus_cases():
     d = os.path.join(VERIF, 'corpus', 'C14')
     out = []
@@ -972,6 +1305,8 @@ def corpus_cases():
 
 def check_case(c):
     """The property oracle on the implementation.  Returns (why or None, result of a, depth)."""
+    if 'session' in c:
+        return check_session_case(c)
     route = c.get('route') or 'expand'
     call = None if route == 'expand' else route_runner(route, c['config'])
     rb = None
@@ -1071,6 +1406,24 @@ def run(ctx):
                        'itself), termination and nesting bound as above; the route\'s output of the alias form is also compared with the extracted model of '
                        'expand() for the same configuration.  Text that is given but false (\'\' / []) is generated only when EMPTY_WRAP_TEXT is on '
                        '(off: known genuine difference, definitions of aliases absorb the empty text); '
+                       'GLOBAL-CONFIG LAYERS x CALL SEQUENCES: sessions of an editor that keeps ONE global_config object (in half of the sessions ONE '
+                       'user config dict too, its syntax set before each call) and passes it to 3-6 steps of calls whose syntax changes at least once '
+                       '(html xml xsl jsx pug slim haml vue svelte; new syntax / same as before / back to an earlier one).  The global config has several '
+                       'layers AT ONCE: global[markup] (85%), global[<syntax>] for 1-3 syntaxes, sometimes layers of the other abbreviation type '
+                       '(stylesheet / css / scss, never in effect), each with snippets (90%), variables, options (reverseAttributes on/off, xhtml closing, '
+                       'single quotes, upper-case tags, compact booleans, indent); the user config adds its own table / variables / options in a part of the '
+                       'sessions.  Keys are drawn from one pool per session so that the layers overlap: fresh names g1..g5 and names that are built-in '
+                       'snippets of some syntax (choose tm inc call if var: xsl; a bq btn fst: all); definitions are generated as for the user tables '
+                       '(acyclic under every layering; some use ${who}).  Each step probes EVERY key of the pool, two more built-in names and a plain name, '
+                       'each in a drawn form (alone / ul>KEY*2 / KEY.extra[t=v] / KEY>b) and along a drawn call style (expand(abbr, dict, G); '
+                       'expand(abbr, Config(dict, G)); expand_markup(abbr, Config(dict, G))).  Oracle (harness-side layering built-in < global[type] < '
+                       'global[syntax] < user config of the data AS THE CALLER WROTE IT, hard-coded from the documentation): the alias form with the '
+                       'session\'s objects = the form with the definition in effect written in its place, expanded with fresh copies of the caller\'s data; a name '
+                       'that no layer in effect (and no built-in table of the syntax) defines = the same form expanded with all the caller\'s tables left '
+                       'out (a plain element); termination and nesting bound as above.  A failing call is reported with the shortest sequence found '
+                       '(failing call alone / one earlier call + it / the whole prefix) and the caller\'s data shrunk greedily; the replay file repeats the '
+                       'sequence in a fresh process.  The extracted model takes one user config: one session call in three is also compared with the model under the '
+                       'equivalent single user config (layers merged by the harness); '
                        'parse_snippets multi-key expansion; every alias form also through the extracted model. '
                        'non-trivial = decorated alias or user table; distinct by abbreviation + config.')
     multikey_check(ctx)
@@ -1081,6 +1434,7 @@ def run(ctx):
     cases += user_cases(ctx, 400 if ctx.tier == 'quick' else 4000, tables)
     cases += variable_round_cases()
     cases += user_wrap_cases(ctx, tables)
+    cases += session_cases(ctx, 90 if ctx.tier == 'quick' else 900)
     lap('generate')
     wires, idx, impl = [], [], []
     maxdepth = 0
@@ -1104,11 +1458,19 @@ def run(ctx):
             ctx.cover('C14:route-x-text:%s:%s' % (c['route'], 'text' if c['text_kind'] in ('string', 'list') else 'no-text'))
         if c['kind'] not in ('builtin:alone',):
             ctx.nontrivial((c['a'], canon_cfg(c['config'])))
-        if why:
+        for b in c.get('session_cover') or ():
+            ctx.cover('C14:session-call:' + b)
+        if why and 'session' in c:
+            rp = session_replay(c, why)
+            ctx.property_failure('C14:session:%s|%s|%s' % (c['a'], canon_cfg(c['config']), canon_cfg(c['session']['global'])),
+                                 'C14 call sequence %s with ONE global_config object %s%s: %s' % (
+                                     ' ; '.join('%s %r' % (e['syntax'], e['a']) for e in rp['calls']), canon_cfg(rp['global']),
+                                     ', user config %s' % canon_cfg(rp['user']) if rp['user'] else '', rp['why']), rp)
+        elif why:
             ctx.property_failure('C14:%s|%s' % (c['a'], canon_cfg(c['config'])),
                                  'C14 expand(%r, %s): %s' % (c['a'], canon_cfg(c['config']), why),
                                  dict(c, component='C14', impl=repr(ra)[:500], why=why))
-        if model is not None:
+        if model is not None and c.get('to_model', True):
             try:
                 wires.append([2] + enc_config(c['config']) + enc_str(c['a']))
                 idx.append(k)
@@ -1130,7 +1492,7 @@ def run(ctx):
     ctx.cov['correspondence']['markup_C14'] = {'cases': len(wires), 'disagreements': dis}
     lap('markup model')
     if ok:
-        au.compare_trees(ctx, 'C14', [(c['a'], c['config']) for c, r in zip(cases, impl) if r[0] == 'ok'])
+        au.compare_trees(ctx, 'C14', [(c['a'], c['config']) for c, r in zip(cases, impl) if r[0] == 'ok' and c.get('to_model', True)])
         from emmet.snippets import markup_snippets, xsl_snippets, pug_snippets
         builtin_tables = [({'syntax': 'html'}, dict(markup_snippets)),
                           ({'syntax': 'xsl'}, {**markup_snippets, **xsl_snippets}),
@@ -1145,12 +1507,14 @@ def run(ctx):
         lap('resolved tie')
     ctx.cov['corpus_cases'] = n_corpus
     ctx.cov['max_resolve_depth_seen'] = maxdepth
-    for c, r in list(zip(cases, impl))[-40:-36]:
+    for c, r in [(c, r) for c, r in zip(cases, impl) if 'session' not in c][-40:-36]:
         ctx.sample({'abbr': c['a'], 'definition_form': c['b'], 'config': c['config'], 'output': r[1][:160] if r[0] == 'ok' else r})
 
 
 def replay(ctx, obj):
     rp = obj.get('replay', {})
+    if rp.get('component') == 'C14-session':
+        return replay_session(rp)
     if 'a' not in rp:
         if rp.get('component') == 'C14-multikey':
             class _C:
